@@ -1,4 +1,5 @@
 pub mod engine;
+pub mod hang;
 pub mod oracle;
 pub use engine::*;
 pub use serde_json;
